@@ -124,7 +124,7 @@ func genUDPCase(r *Rng, prop string) udpCaseSpec {
 		if op.AKind == 17 || op.AKind == 18 || op.AKind == 20 {
 			op.PLen = 0 // a payload would complete the truncated address into some other destination
 		}
-		if op.Kind == "honest" && !malformedKind(op.AKind) && targetKinds[op.AKind].atyp != 3 && (r.Chance(4) || (prop == "C14" && r.Chance(12))) {
+		if op.Kind == "honest" && !malformedKind(op.AKind) && targetKinds[op.AKind].atyp != 3 && (r.Chance(4) || ((prop == "C14" || prop == "C04") && r.Chance(12))) {
 			op.Port0, op.Replies = true, nil // the send itself fails; the association must still be reclaimed
 		}
 		op.Key = fmt.Sprintf("%d/%d", op.C, op.S)
